@@ -582,9 +582,13 @@ package impl
 //@ func (*impl.receiver).ReceiveError {C20}
 //@   requires err != nil
 //@ func (*impl.manager).OnTransferInitiated {C20}
+//@   ensures [forwards] {C16} seq(Channels.TransferInitiated) && all(Channels.TransferInitiated, $1 == chid)
 //@ func (*impl.manager).OnRequestCancelled {C20}
+//@   ensures [forwards] {C16,C03} seq(Channels.RequestCancelled) && all(Channels.RequestCancelled, $1 == chid && $2 == err) && result == ret(Channels.RequestCancelled, 0)
 //@ func (*impl.manager).OnSendDataError {C20}
+//@   ensures [forwards] {C16,C03} seq(Channels.SendDataError) && all(Channels.SendDataError, $1 == chid && $2 == err) && result == ret(Channels.SendDataError, 0)
 //@ func (*impl.manager).OnReceiveDataError {C20}
+//@   ensures [forwards] {C16,C03} seq(Channels.ReceiveDataError) && all(Channels.ReceiveDataError, $1 == chid && $2 == err) && result == ret(Channels.ReceiveDataError, 0)
 //@ func (*impl.manager).OnContextAugment {C20}
 
 // public wrappers and stop (C04/C05/C08: the traced wrapper adds nothing to the checked implementation; C06/C19: queries go
